@@ -66,6 +66,69 @@ pub fn run(max_n: usize, shards: usize, outdir: &str) {
     );
 }
 
+/// larger n: only the first `steps` calls of next (hint before each call and once after), plus binom for all n <= 62
+pub fn run_prefix(min_n: usize, max_n: usize, steps: usize, outdir: &str) {
+    std::panic::set_hook(Box::new(|_| {}));
+    let mut cases = Vec::new();
+    let mut meta = Vec::new();
+    for n in min_n..=max_n {
+        for k in 0..=(n + 1) {
+            let data: Vec<usize> = (0..n).collect();
+            let mut it = data[..].iter_selections(k);
+            let mut hints: Vec<u128> = Vec::new();
+            let mut vals: Vec<Vec<usize>> = Vec::new();
+            let mut consistent = true;
+            let r = std::panic::catch_unwind(std::panic::AssertUnwindSafe(|| {
+                for _ in 0..steps {
+                    let (lo, hi) = it.size_hint();
+                    if hi != Some(lo) {
+                        consistent = false;
+                    }
+                    match it.next() {
+                        Some(v) => {
+                            hints.push(lo as u128);
+                            vals.push(v.into_iter().copied().collect());
+                        }
+                        None => break,
+                    }
+                }
+                hints.push(it.size_hint().0 as u128);
+            }));
+            if r.is_err() {
+                consistent = false; // a panic (e.g. size_hint underflow) is reported as disagreement + spec failure
+                hints.push(u64::MAX as u128);
+            }
+            let b = std::panic::catch_unwind(|| binom(n, k)).unwrap_or(usize::MAX);
+            cases.push(format!(
+                "({}, {}, {}, {}, {}, {})",
+                n,
+                k,
+                g_list(&hints, |h| g_n(*h)),
+                g_list(&vals, |v| g_natlist(v)),
+                g_n(b as u128),
+                g_bool(consistent)
+            ));
+            meta.push(json!({"n": n, "k": k, "mode": "prefix", "steps": vals.len(), "binom": b, "hints": hints.iter().map(|h| *h as u64).collect::<Vec<u64>>()}));
+        }
+    }
+    let f = cases_file("Require Import CorrSel.\nOpen Scope list_scope.", "sel_case", "check_sel_prefix", &cases);
+    std::fs::write(format!("{}/cases_selp_00.v", outdir), f).unwrap();
+    std::fs::write(format!("{}/cases_selp_00.json", outdir), serde_json::to_string(&meta).unwrap()).unwrap();
+    let mut bc = Vec::new();
+    let mut bm = Vec::new();
+    for n in 0..=62usize {
+        for k in 0..=(n + 1) {
+            let b = std::panic::catch_unwind(|| binom(n, k)).ok();
+            bc.push(format!("({}, {}, {})", n, k, g_opt(&b, |x| g_n(*x as u128))));
+            bm.push(json!({"n": n, "k": k, "mode": "binom", "binom": b}));
+        }
+    }
+    let f = cases_file("Require Import CorrSel.\nOpen Scope list_scope.", "binom_case", "check_binom", &bc);
+    std::fs::write(format!("{}/cases_binom_00.v", outdir), f).unwrap();
+    std::fs::write(format!("{}/cases_binom_00.json", outdir), serde_json::to_string(&bm).unwrap()).unwrap();
+    println!("{}", json!({"prefix_cases": cases.len(), "binom_cases": bc.len()}));
+}
+
 fn shards_pick(idx: usize, shards: usize) -> usize {
     idx % shards
 }
